@@ -95,6 +95,13 @@ CLAIMED["C24"] = {
   "design_ref": "DESIGN.md section 4 C24",
 }
 
+CLAIMED["C23"] = {
+  "text": "Static decision of the normalisation barrier (first clause): every quaternion component the integrators store into qpos is a component of quat_integrate's result, all of whose returns are wp.normalize(...); every store to xquat is wp.normalize(...); every orientation matrix is quat_to_mat of quaternions assembled only from xquat and Model quaternions (or a Model reference matrix).",
+  "note": STATIC_NOTE,
+  "technique": "must-pass-through (value provenance through marked calls) on the kernel IR (R-NORM)",
+  "design_ref": "DESIGN.md section 4 C23",
+}
+
 NOT_APPLICABLE = {
   "C06": "optimality of an iterative float solve is a runtime quantity; no structural necessary condition beyond what C24/C25 decide",
   "C18": "equivalence of broadphases depends on geometric conservativeness of numeric filters and sort/scan arithmetic; a sibling text-diff of the NXN/SAP kernels would alarm on harmless refactors",
